@@ -293,6 +293,17 @@ def r4(ctx):
                         at |= Slicer(ctx.w).atoms(fb, o)
             if D in at and Q in at:
                 okkey = True
+            # a tuple key is compared lexicographically: the deadline comes first, the emission number only breaks ties
+            for bb, i, st in fb.all_stmts():
+                r = st["r"]
+                if i != "term" and r["k"] == "agg" and r.get("ak") == "tuple" and len(r.get("ops", [])) >= 2:
+                    ats = [Slicer(ctx.w).atoms(fb, o) for o in r["ops"]]
+                    dp = [k for k, a in enumerate(ats) if D in a and Q not in a]
+                    qp = [k for k, a in enumerate(ats) if Q in a and D not in a]
+                    if dp and qp and not dp[0] < qp[0]:
+                        okkey = False
+                        ctx.bad(R, "schedule:key-order", st["s"], "the pending queue is searched with the key (seq, deliver_at): the emission number is unique, so the queue ends up in "
+                                "emission order and `tick`, which delivers the due *prefix*, lets one packet with a long delay block every packet scheduled after it")
         ok_ins = False
         if len(ins) == 1 and ins[0]["f"].endswith("insert") and bs and len(ins[0]["args"]) > 1:
             ia = Slicer(ctx.w).atoms(s, ins[0]["args"][1])
